@@ -132,6 +132,8 @@ fn record(out: &str, a: &Args) {
     for _ in 0..n {
         vals.push(rng.boundary64());
     }
+    // the band of reserved 32-bit initial lengths and its neighbours
+    vals.extend(0xffff_ffe0u64..=0x1_0000_0010u64);
     for sh in 0..64 {
         for d in [0u64, 1, u64::MAX] {
             vals.push((1u64 << sh).wrapping_add(d));
